@@ -23,7 +23,7 @@ def register(prop, J):
                     "exactly the matching subtrees, the decoder must reject exactly the documents carrying a matching value and must "
                     "not report excluded required fields as missing",
          level_note="the wire-level half (which generated client call passes which spec, server 400s) is exercised by the "
-                    "resource-level harness; a trailing wildcard that would exclude every array item is not generated (the property's "
+                    "resource-level harness on v2 and root-module bindings; a trailing wildcard that would exclude every array item is not generated (the property's "
                     "wildcard is the item level of a longer path)",
          technique="property-based testing (rapid) with a reference path matcher and the reference codec",
          design_ref="2/C07")
